@@ -1,6 +1,9 @@
 import MgpuModel.Util
 import MgpuModel.Gen.Sites
 import MgpuModel.C05_Sched
+import MgpuModel.C05_Rest
+import MgpuModel.C05_Engine
+import MgpuModel.C05_Par
 /-! # C05 — reproducibility: the places where Go map iteration order could leak into results
 
 `Gen.mapSites`, `Gen.clockSites`, `Gen.goSites` are REGENERATED from the simulator sources on
@@ -121,6 +124,13 @@ def handle (line : String) : String :=
     | "c05" :: "tsched" :: t =>
       match (kv? t "rounds").bind (natList? ·) with
       | some rounds => joinWith " " (T.runTrace (T.init rounds) (rest.flatMap words) [])
+      | none => "bad"
+    | "c05" :: "evq" :: t => joinWith " " (Eng.evqTrace [] t [])
+    | "c05" :: "eng" :: t => Eng.handleEng t rest
+    | "c05" :: "par" :: t => Par.handlePar t rest
+    | "c05" :: "rsched" :: t =>
+      match (kv? t "rounds").bind (natList? ·) with
+      | some rounds => joinWith " " (R.runTrace (R.init rounds) (rest.flatMap words) [])
       | none => "bad"
     | "c05" :: "cpistack" :: t =>
       match (kv? t "total").bind parseF64, (kv? t "freq").bind parseF64, kvNat? t "inst",
